@@ -202,4 +202,8 @@ def plan(ctx):
   for lr in (0.125, 0.5):
     for reg in (None, 0.25):
       cs.append({'pair': 'mime_one_step', 'lr': lr, 'batching': 'b1s1', 'depth': depth, 'reg': reg, 'seed': ctx.seed})
+  # one long history per pair (the all-empty cohort C only where the two systems agree on it: not for hyp1, finding F20)
+  long_path = ['AB', 'A', 'BA', 'AC', 'B', 'ABA', 'DB', 'AB', 'A', 'AC', 'DB', 'B']
+  for p in ('fedprox0', 'hyp1', 'mimelite_sgd', 'apfl_global'):
+    cs.append({'pair': p, 'lr': 0.125, 'batching': 'b2e1', 'depth': len(long_path), 'history': long_path, 'seed': ctx.seed})
   ctx.pmap('lockstep', cs, chunk=1)
